@@ -86,6 +86,12 @@ SparseKinds == {"complete", "no_values", "no_indices", "empty", "values_unnamed"
 SparseCase(kind, opsets) ==
    [LoadCase(opsets, <<"good">>, FALSE, "none", <<"sparse_initializer_" \o kind>>) EXCEPT !.x = @ @@ [sparse |-> kind], !.x.expect = "nocrash", !.feat = <<"sparse_initializer_" \o kind, "nocrash">>]
 
+\* ---- graphs nested in graphs (control-flow operators carry subgraphs as attributes): 10, 5000 and 400000 levels deep, well formed.
+\* Whatever the loader makes of them (the interpreter has no control flow), it returns: a depth is no reason to bring the process down
+NestedCase(levels) ==
+   [LoadCase(<<Imp("", 13)>>, <<>>, FALSE, "none", <<"nested_graphs">>) EXCEPT !.x = @ @@ [nested |-> levels], !.x.expect = "nocrash",
+                                                                                   !.feat = <<"nested_graphs_" \o ToString(levels), "nocrash">>]
+
 \* ---- unknown operator types at every position of a chain (also directly after a multi-output node)
 UnknownOps == {"Gelu", "relu", "RELU", "", "Identity", "LayerNormalization", "com.x.Custom", "Relu ", "MaxPool",
                \* names that are dangerous inside a format string, a path or a lookup key
@@ -171,6 +177,7 @@ Emit ==
                    /\ P(LoadCase(<<Imp("", 13)>>, [i \in 1..m |-> st.k], FALSE, "none", <<"initializer_" \o st.k, "many_malformed", "all_of_" \o ToString(m)>>))
                    /\ P(LoadCase(<<Imp("", 13)>>, [i \in 1..(2 * m) |-> IF i % 2 = 0 THEN st.k ELSE "good"], FALSE, "none", <<"initializer_" \o st.k, "many_malformed", "every_other_of_" \o ToString(2 * m)>>))
         [] st.fam = "zip" -> /\ \A dcl \in ZipDeclared, method \in {0, 8} : P(ZipCase(dcl, method))
+                             /\ \A lv \in {10, 5000, 400000} : P(NestedCase(lv))
                              /\ \A k \in SparseKinds : P(SparseCase(k, <<Imp("", 13)>>)) /\ P(SparseCase(k, <<Imp("", 12)>>))
         [] st.fam = "files" -> \A pert \in {"none", "truncate", "overwrite"} : P(FileCase(st.f, pert))
         [] st.fam = "random" -> P(RandomCase(st.seed))
